@@ -230,6 +230,14 @@ func cmdSelftest(args []string) int {
 		if res == nil {
 			continue
 		}
+		if sr := runSeeds(vdir, *repo, p); sr != nil {
+			if n, _ := sr["missed"].(int); n > 0 {
+				bad += n
+			}
+			if n, _ := sr["invalid"].(int); n > 0 {
+				bad += n
+			}
+		}
 		if n, _ := res["missed"].(int); n > 0 {
 			bad += n
 		}
@@ -245,4 +253,125 @@ func cmdSelftest(args []string) int {
 		return 1
 	}
 	return 0
+}
+
+// ---------------------------------------------------------------------------
+// Replay of the kept seeded changes (/verif/seeded/<id>): each patch is applied to scratch copies of the files
+// it touches (outside the repository) and analysed through the overlay. Informational, like the mutants.
+
+type seedResult struct {
+	ID       string `json:"id"`
+	Status   string `json:"status"` // detected | missed | documented-miss | skipped | invalid
+	Expected string `json:"expected_by,omitempty"`
+	Detail   string `json:"detail,omitempty"`
+}
+
+func runOneSeed(exe, vdir, repo, prop, dir string) seedResult {
+	id := filepath.Base(dir)
+	var meta struct {
+		Property   string `json:"property"`
+		DetectedBy string `json:"detected_by"`
+	}
+	if b, err := os.ReadFile(filepath.Join(dir, "meta.json")); err == nil {
+		_ = json.Unmarshal(b, &meta)
+	}
+	patch, err := os.ReadFile(filepath.Join(dir, "patch.diff"))
+	if err != nil {
+		return seedResult{id, "skipped", meta.DetectedBy, "no patch.diff"}
+	}
+	tmp, err := os.MkdirTemp("", "cjverif-seed-*")
+	if err != nil {
+		return seedResult{id, "skipped", meta.DetectedBy, err.Error()}
+	}
+	defer os.RemoveAll(tmp)
+	var files []string
+	for _, line := range strings.Split(string(patch), "\n") {
+		if strings.HasPrefix(line, "+++ b/") {
+			files = append(files, strings.TrimSpace(strings.TrimPrefix(line, "+++ b/")))
+		}
+	}
+	for _, f := range files {
+		dst := filepath.Join(tmp, f)
+		_ = os.MkdirAll(filepath.Dir(dst), 0o755)
+		if b, err := os.ReadFile(filepath.Join(repo, f)); err == nil {
+			_ = os.WriteFile(dst, b, 0o644)
+		}
+	}
+	ap := exec.Command("git", "apply", "--whitespace=nowarn", filepath.Join(dir, "patch.diff"))
+	ap.Dir = tmp
+	ap.Env = append(os.Environ(), "GIT_CEILING_DIRECTORIES="+filepath.Dir(tmp))
+	if out, err := ap.CombinedOutput(); err != nil {
+		return seedResult{id, "skipped", meta.DetectedBy, "patch does not apply to today's tree: " + firstLines(string(out), 2)}
+	}
+	args := []string{"check", "-property", prop, "-repo", repo, "-no-evidence"}
+	for _, f := range files {
+		args = append(args, "-overlay", f+"="+filepath.Join(tmp, f))
+	}
+	ctx, cancel := context.WithTimeout(context.Background(), 3*time.Minute)
+	defer cancel()
+	cmd := exec.CommandContext(ctx, exe, args...)
+	cmd.Env = append(os.Environ(), "VERIF_DIR="+vdir, "CJVERIF_MUTANT=1")
+	out, err := cmd.CombinedOutput()
+	code := 0
+	if err != nil {
+		if ee, ok := err.(*exec.ExitError); ok {
+			code = ee.ExitCode()
+		} else {
+			return seedResult{id, "skipped", meta.DetectedBy, err.Error()}
+		}
+	}
+	documentedMiss := strings.HasPrefix(strings.ToUpper(meta.DetectedBy), "MISSED")
+	switch code {
+	case 1:
+		first := ""
+		for _, line := range strings.Split(string(out), "\n") {
+			if strings.Contains(line, "violated") || strings.Contains(line, "undecided") {
+				first = strings.TrimSpace(firstN(line, 200))
+				break
+			}
+		}
+		return seedResult{id, "detected", meta.DetectedBy, first}
+	case 0:
+		if strings.HasPrefix(strings.ToUpper(meta.DetectedBy), "NEUTRALISED") {
+			return seedResult{id, "neutralised", meta.DetectedBy, "the change no longer breaks the property on today's tree (see meta.json)"}
+		}
+		if documentedMiss {
+			return seedResult{id, "documented-miss", meta.DetectedBy, "not detected, as documented in DESIGN.md"}
+		}
+		return seedResult{id, "missed", meta.DetectedBy, "no violation reported"}
+	default:
+		return seedResult{id, "invalid", meta.DetectedBy, firstLines(string(out), 3)}
+	}
+}
+
+func runSeeds(vdir, repo, prop string) map[string]any {
+	if os.Getenv("CJVERIF_MUTANT") != "" {
+		return nil
+	}
+	exe, err := os.Executable()
+	if err != nil {
+		return map[string]any{"error": err.Error()}
+	}
+	dirs, _ := filepath.Glob(filepath.Join(vdir, "seeded", prop+"-*"))
+	sort.Strings(dirs)
+	results := make([]seedResult, len(dirs))
+	var wg sync.WaitGroup
+	sem := make(chan struct{}, 4)
+	for i, d := range dirs {
+		wg.Add(1)
+		go func(i int, d string) {
+			defer wg.Done()
+			sem <- struct{}{}
+			defer func() { <-sem }()
+			results[i] = runOneSeed(exe, vdir, repo, prop, d)
+		}(i, d)
+	}
+	wg.Wait()
+	counts := map[string]int{}
+	for _, r := range results {
+		counts[r.Status]++
+		fmt.Printf("  seeded %-10s %-16s %s\n", r.ID, r.Status, firstN(r.Detail, 170))
+	}
+	return map[string]any{"changes": len(dirs), "detected": counts["detected"], "missed": counts["missed"], "documented_miss": counts["documented-miss"], "neutralised": counts["neutralised"], "skipped": counts["skipped"], "invalid": counts["invalid"], "results": results,
+		"note": "replay of the independently seeded breaking changes kept under /verif/seeded (patch applied to scratch copies, analysed through the overlay); informational"}
 }
